@@ -254,10 +254,13 @@ pub fn finalize(
         let mut update_payload: Vec<u8> = Vec::new();
         let repo_refs_before = gitutil::get_all_refs(&opts.target)?;
         for (refname, oid) in &resolved_updates {
-            let ref_str = String::from_utf8_lossy(refname);
-            let oid_str = String::from_utf8_lossy(oid);
-            update_payload
-                .extend_from_slice(format!("update {} {}\n", ref_str, oid_str).as_bytes());
+            // Ref names are bytes: a lossy conversion would update (that is, create) a
+            // differently spelled ref for a name that is not valid UTF-8.
+            update_payload.extend_from_slice(b"update ");
+            update_payload.extend_from_slice(refname);
+            update_payload.push(b' ');
+            update_payload.extend_from_slice(oid);
+            update_payload.push(b'\n');
         }
         for (old, new_) in &refs {
             if old == new_ {
